@@ -41,6 +41,10 @@ CHECKS = {
                 technique="small-scope exhaustive enumeration of protos (complete leaf families + baseline model with every single and every pair of feature deviations), field-by-field comparison up to the documented normalisations, fixpoint of the second round trip",
                 text="Leaf families are enumerated completely (TensorProto: 25 dtypes x storage fields x dims x doc/metadata/external entries; TypeProto/ValueInfoProto: tensor/sparse/sequence/optional nested to depth 3 x element types x shape variants x denotations at every level; AttributeProto: every kind except sparse x default/non-default payload x doc x reference form) through the dedicated serde functions; composite models are a baseline plus every single and every pair of 22 feature deviations (domains, opset imports, model fields, metadata on every carrier, initializer/input/output aliasing, value-info variants, quantization annotations, all attribute kinds, If bodies capturing values declared before/after use, nested bodies with initializers, functions with attributes/overloads/value-info, unsorted nodes, missing/duplicate node names, storage mixes, nested types, device configurations, optional I/O) over IR versions 3..13. Each proto is round-tripped twice and compared with a path-level diff after a normaliser that implements only the normalisations the property lists.",
                 note="Supported feature set only (no sparse attributes/initializers, map types, training_info, segments); the normaliser is part of the trusted base."),
+    "C17": dict(level="exploration", engine="E6-enum", design="4/C17",
+                technique="deviation-bounded exhaustive mutation: every catalogue mutation at every site of every seed proto (singles; pairs and single-byte substitutions in thorough), with termination alarm, link-invariant, fixpoint and file-access oracles",
+                text="31 valid seed models covering every construct of the C02 catalogue are mutated at every site: each string emptied / aliased to a sibling / dangling, each repeated element deleted / duplicated / swapped / reversed, each enum unknown, each int negative or huge, each bytes field truncated or invalid UTF-8, each optional message cleared, plus structural mutants (cycles, inconsistent tensor fields, absurd external-data entries, self-nested graph attributes, missing types, name collisions, nested bodies naming outer values). Every mutant must terminate within 5 s and either raise or return an IR that satisfies the C01 link invariant, whose values are owned by their producer's graph, whose serialisation raises or is a byte-exact fixpoint of one more round trip, and that touched no file (Python-level interception of open/stat/... on canary paths) during deserialisation or while reading name/dtype/shape/size of its tensors.",
+                note="File access is observed at the Python level (the library is pure Python); unparsable byte mutants are outside the property."),
 }
 
 NOT_YET = {}
@@ -82,7 +86,7 @@ def main():
              "kind_free_text": "explicit-state BFS over the real transition function; states are histories replayed on fresh real objects; dedup on canonical public snapshot"},
             {"name": "E1-seq", "path": "mc/props/c11.py", "serves_properties": ["C11"],
              "kind_free_text": "stateless enumeration of all event sequences up to a depth with trace monitors"},
-            {"name": "E6-enum", "path": "mc/props/", "serves_properties": ["C02", "C04", "C12", "C16"],
+            {"name": "E6-enum", "path": "mc/props/", "serves_properties": ["C02", "C04", "C12", "C16", "C17"],
              "kind_free_text": "small-scope exhaustive input/structure enumeration with independent reference oracles"},
             {"name": "E5-fsfault", "path": "mc/fsfault.py", "serves_properties": ["C08"],
              "kind_free_text": "file-system effect interception + exhaustive fault/crash/torn-write plans"},
